@@ -137,6 +137,46 @@ theorem filtered_listing (σ : Nat → Nat) (w : World) (h : DbH) (f : NameFilte
   simp only [Catalog.step, hob, hf, Bool.not_true, Bool.false_eq_true, if_false,
     Server.listCollsFiltered, Server.listColls, List.filter_filter]
 
+/-! ### existence is recorded: emptying a collection does not remove it -/
+
+/-- in every well-formed state a collection exists iff its store carries the flag -/
+theorem created_eq_flag {w : World} (hw : WF w) (i : Nat) (d n : String) :
+    created w i d n = ((w.store i).coll d n).forceCreated :=
+  isCreated_eq_flag (hw.2.2 i d n)
+
+theorem collOp_deleteAll_dropIndexes (c : Coll) :
+    (collOp .dropIndexes (collOp .deleteAll c).1).1 = ⟨[], [], c.forceCreated⟩ := rfl
+
+/-- an existing collection emptied of all its documents and of all its indexes still exists: it
+    finds nothing, `index_information()` shows exactly `_id_`, and it is still listed with its
+    database -/
+theorem emptied_still_exists (σ : Nat → Nat) (w : World) (h : CollH) (hw : WF w)
+    (hob : obtainedColl w h = true) (hex : created w (σ h.client) h.db h.coll = true) :
+    let w' := (Catalog.run σ w [.coll h .deleteAll, .coll h .dropIndexes]).1
+    created w' (σ h.client) h.db h.coll = true ∧
+    (Catalog.step σ w' (.coll h .find)).2 = .ids [] ∧
+    (Catalog.step σ w' (.coll h .indexInformation)).2 = .indexes [("_id_", idIndex)] ∧
+    h.db ∈ (w'.store (σ h.client)).listDbs ∧
+    (isSystem h.coll = false → h.coll ∈ (w'.store (σ h.client)).listColls h.db) := by
+  intro w'
+  have hw' : WF w' := wf_run σ _ w hw
+  have hob1 : obtainedColl (Catalog.step σ w (.coll h .deleteAll)).1 h = true :=
+    obtainedColl_step σ w _ h hob
+  have hob' : obtainedColl w' h = true := obtainedColl_run σ _ h w hob
+  have hf : ((w.store (σ h.client)).coll h.db h.coll).forceCreated = true := by
+    rw [← created_eq_flag hw]; exact hex
+  have hc : (w'.store (σ h.client)).coll h.db h.coll = ⟨[], [], true⟩ := by
+    show ((Catalog.step σ (Catalog.step σ w (.coll h .deleteAll)).1 (.coll h .dropIndexes)).1.store
+      (σ h.client)).coll h.db h.coll = _
+    rw [step_coll σ _ h .dropIndexes hob1, step_coll σ w h .deleteAll hob]
+    simp only [store_setStore, if_true, coll_setColl, and_self]
+    rw [collOp_deleteAll_dropIndexes, hf]
+  have hcr : created w' (σ h.client) h.db h.coll = true := by
+    unfold created; rw [hc]; rfl
+  refine ⟨hcr, ?_, ?_, created_listed hw' _ _ _ hcr⟩
+  · rw [step_coll σ w' h .find hob', hc]; rfl
+  · rw [step_coll σ w' h .indexInformation hob', hc]; rfl
+
 theorem reachable_wf (σ : Nat → Nat) (w : World) (h : Reachable σ w) : WF w := by
   obtain ⟨ops, rfl⟩ := h
   exact wf_run σ ops _ wf_init
